@@ -7,6 +7,14 @@ name="$1"; demo="$2"; shift 2; props="$*"
 export GOFLAGS=-mod=mod GOPROXY=off GOSUMDB=off GOTOOLCHAIN=local
 src=${SEED_SRC:-/tmp/wt/$name}
 vs=/tmp/vs/$name
+# PHASE=A: only the independent confirmation in a fresh worktree (may run in parallel for several seeds);
+# PHASE=B: only the checks against /repo (serial), using the result of an earlier phase A; default: both.
+PHASE=${PHASE:-AB}
+res=/verif/seeded/$name
+if [ "$PHASE" = B ]; then
+  [ -f "$res/.phaseA" ] || { echo "$name: no phase A result"; exit 2; }
+  . "$res/.phaseA"; log="$res/verify.log"; cd /verif
+else
 [ -f "$src/PATCH.diff" ] || { echo "no PATCH.diff in $src"; exit 2; }
 rm -rf "$vs"; git -C /repo worktree prune; git -C /repo worktree add -q --detach "$vs" HEAD || exit 2
 trap 'git -C /repo worktree remove --force "$vs" 2>/dev/null; rm -rf "$vs"' EXIT
@@ -36,6 +44,10 @@ go vet ./... >> "$log" 2>&1; rc_vet=$?
 go test -count=1 ./... >> "$log" 2>&1; rc_suite=$?
 rm -rf "$tmpd"
 cd /verif
+echo "rc_without=$rc_without rc_with=$rc_with rc_build=$rc_build rc_vet=$rc_vet rc_suite=$rc_suite" > "$res/.phaseA"
+fi
+[ "$PHASE" = A ] && { echo "$name: phase A: demo without=$rc_without with=$rc_with build=$rc_build vet=$rc_vet suite=$rc_suite"; exit 0; }
+rm -f "$res/.phaseA"
 echo "$name: demo without=$rc_without with=$rc_with build=$rc_build vet=$rc_vet suite=$rc_suite"
 ok=false
 if [ $rc_without -eq 0 ] && [ $rc_with -ne 0 ] && [ $rc_build -eq 0 ] && [ $rc_suite -eq 0 ]; then ok=true; fi
